@@ -91,26 +91,56 @@ def rule_ignore_dominates_matlab(ctx, rep: Report, rid="X2"):
 
 
 def rule_every_class_iteration_filtered(ctx, rep: Report, rid="X2"):
+    """Every walk over the registered classes (`self.classes`, directly or through filter / sorted / a comprehension /
+    a local bound to one of these) consults the ignore list before it emits anything: in the loop body, in the
+    comprehension's condition, or in the predicate the classes are filtered with (lambda or helper method)."""
     ci, prog = mw(ctx)
     n = 0
+
+    def mentions_classes(e) -> bool:
+        return any(isinstance(a, ast.Attribute) and unparse(a) == "self.classes" for a in ast.walk(e))
+
+    def tests_in_iterable(e) -> bool:
+        if _ignore_tests(e):
+            return True
+        for c_ in ast.walk(e):
+            if isinstance(c_, ast.Call):
+                for a in list(c_.args) + [k.value for k in c_.keywords]:
+                    if isinstance(a, ast.Attribute) and unparse(a.value) == "self":
+                        h = prog.find_method(ci, a.attr)
+                        if h is not None and _ignore_tests(h[1]):
+                            return True
+        return False
     for c in prog.mro(ci):
         for mname, fn in sorted(c.methods.items()):
             for x in ast.walk(fn):
                 it = None
-                if isinstance(x, ast.For) and unparse(x.iter) == "self.classes":
+                if isinstance(x, ast.For):
+                    src = inline_locals(fn, x.iter) if isinstance(x.iter, ast.Name) else x.iter
+                    if not mentions_classes(src):
+                        continue
                     it = x
                     tests = [t for st in x.body for t in _ignore_tests(st)]
                     first_emit = next((st for st in x.body if isinstance(st, (ast.AugAssign,)) or ".append(" in unparse(st)), None)
-                    ok = bool(tests) and (first_emit is None or tests[0].lineno <= first_emit.lineno)
-                elif isinstance(x, ast.comprehension) and unparse(x.iter) == "self.classes":
+                    ok = (bool(tests) and (first_emit is None or tests[0].lineno <= first_emit.lineno)) or tests_in_iterable(src)
+                elif isinstance(x, ast.comprehension):
+                    src = inline_locals(fn, x.iter) if isinstance(x.iter, ast.Name) else x.iter
+                    if not mentions_classes(src):
+                        continue
+                    # a comprehension that only filters / copies the list is judged where its result is walked
                     it = x
-                    ok = any(True for cond in x.ifs for _ in _ignore_tests(cond))
+                    ok = any(True for cond in x.ifs for _ in _ignore_tests(cond)) or tests_in_iterable(src)
+                    owner = parent(x)
+                    st_ = stmt_of(owner) if owner is not None else None
+                    if not ok and isinstance(st_, ast.Assign) and len(st_.targets) == 1 and isinstance(st_.targets[0], ast.Name) \
+                            and isinstance(owner, (ast.ListComp, ast.GeneratorExp)) and isinstance(owner.elt, ast.Name):
+                        continue
                 if it is None:
                     continue
                 n += 1
                 rep.add(rid, f"{mname}:iteration over the registered classes applies the ignore list", ok,
                         "text is produced for every registered class without consulting the ignore list: an artefact of an "
-                        "ignored class (e.g. its typedef) survives in the MEX source", f"{c.mod.rel}:{getattr(it, 'lineno', it.iter.lineno)}")
+                        "ignored class (e.g. its typedef, its Boost export) survives in the MEX source", f"{c.mod.rel}:{getattr(it, 'lineno', it.iter.lineno)}")
     if n < 1:
         raise AnalysisError(f"{rep.prop}/{rid}: no iteration over self.classes found")
 
